@@ -294,6 +294,18 @@ def check_run(res: Result, sc, run, d, stem: str, ref_t, warm: bool = False) -> 
                     continue
                 got = np.asarray(f.vars[name])
                 want = stored(pvar_expected(sc, snap, name, npid, ref_t), nct)
+                units = f.var_attrs.get(name, {}).get("units")
+                if isinstance(units, str) and units.startswith("seconds since ") and "reference_time" not in units:
+                    # a time-typed particle variable that carries CF units must decode, with the units the file
+                    # itself states, to the times the particles hold: its epoch is the epoch the numbers count from
+                    try:
+                        epoch = np.datetime64(units[len("seconds since "):].strip().replace(" ", "T"), "s")
+                    except ValueError:
+                        epoch = None
+                    res.probes["time_pvar_units_judged"] += 1
+                    if epoch is None or epoch != ref_t:
+                        res.add(Violation("C06.particle_var", snap["step"], f"{f.name} {name}: units attribute",
+                                          units, f"seconds since {ref_t} (the epoch its numbers are counted from)"))
                 if len(got) < npid or not same(got[:npid], want):
                     res.add(Violation("C06.particle_var", snap["step"],
                                       f"{f.name} {name}[0:{npid}] (particles released up to the file's last record)",
